@@ -43,7 +43,9 @@ def run(rep):
                          "and 4 appended tails of a 289-byte five-object pack (OFS + REF delta) through add_thin_pack, add_pack+commit, "
                          "MemoryObjectStore.add_thin_pack/add_pack/add_pack_data, add_pack_data and PackStreamReader, and again with the trailer "
                          "recomputed after the damage (so that the checksum does not mask what lies behind it); delta graphs through every "
-                         "store kind and ingestion path; reads of installed packs with crafted index and base names vs read_entry; of its 1156-byte v2 index, a loose object, packed-refs "
+                         "store kind and ingestion path; reads of installed packs with crafted index and base names vs read_entry; entries whose stream inflates to 64 MiB (256 MiB in thorough) behind "
+                         "a header announcing 1000 / 70000 / 2^20 bytes, delivered in reads of 512 / 4096 / 65536 / unlimited bytes: refused with peak "
+                         "memory (tracemalloc) below 4 x announced + 4 x compressed + 2 MiB; of its 1156-byte v2 index, a loose object, packed-refs "
                          "and an index file through Repo() reads.  A mutant must end as ok or as an ordinary Exception within 20 s; a "
                          "failed ingestion must leave set(store) and the directory listing (temporary files aside) unchanged; whatever "
                          "a success makes visible must hash to its name.  distinct non-trivial = mutants and graphs")
@@ -117,6 +119,21 @@ def run(rep):
                 rep.fail("read-wrong-object", "entry %d of the crafted pack read back as another object" % i, case)
             elif (got == "ok:same") != (m == "ok"):
                 rep.disagree("Pack.resolve_object vs DeltaGraph.read_entry (entry %d)" % i, case, m, got)
+    # ---- decompression bombs: an entry that inflates to far more than its header announces
+    breqs = [{"fn": "bomb", "path": pa, "seg": seg, "announced": ann, "real": (64 if not thorough else 256) << 20}
+             for pa in ("stream", "thin", "memory", "add_pack") for seg in (512, 4096, 65536, None) for ann in (1000, 70000, 1 << 20)]
+    for q, r in zip(breqs, impl.run(breqs)):
+        case = dict(q, bomb=True)
+        rep.case("bomb:" + q["path"], key=repr(q), nontrivial=True, outcome=r.get("cls"), sample=case)
+        if "cls" not in r:
+            rep.fail("bomb-worker", "the bomb case failed: %r" % (r,), case)
+        elif not r["cls"].startswith("error:"):
+            rep.fail("not-contained", "an entry inflating to %d MiB behind a header announcing %d bytes ended as %s" % (q["real"] >> 20, q["announced"], r["cls"]), case)
+        elif r["changed"]:
+            rep.fail("failed-ingest-left-trace", "the bomb was refused (%s) but the store changed" % r["cls"], case)
+        elif r["peak"] > 4 * q["announced"] + 4 * r["stream"] + (2 << 20):
+            rep.fail("not-contained", "refusing an entry that announces %d bytes took %d bytes of memory at the peak (the stream inflates to %d MiB): the reader did not stop at the announced size"
+                     % (q["announced"], r["peak"], q["real"] >> 20), case)
     # ---- mutation sweeps
     psize = impl.run([{"fn": "sample_size"}])[0]["size"]
     reqs = []
